@@ -586,6 +586,8 @@ func (x *Exec) allocHeap(st *State, et types.Type) Value {
 		// pointer to array: treated as backing store of a slice
 		x.zeroArray(st, at.Elem(), ref)
 		st.assign = append(st.assign, Region{IsElem: true, Arr: ref, ElemKey: typeKey(at.Elem()), Desc: "new array"})
+		gm := mapRef{smtName("H!ghost!lib"), ArraySort(SInt, SInt)}
+		x.heapSet(st, gm, Store(x.heapGet(st, gm), ref, IntLit(1)))
 		return PtrV{Kind: PHeap, Ref: ref, Root: et}
 	}
 	p := PtrV{Kind: PHeap, Ref: ref, Root: et}
